@@ -1398,7 +1398,7 @@ def function_level(chk, model_ok, r, n):
 def _fake_attr(text):
     from compiler.util import ir_data, parser_types
     loc = parser_types.SourceLocation(parser_types.SourcePosition(1, 1), parser_types.SourcePosition(1, 1 + len(text)))
-    return ir_data.Attribute(name=ir_data.Word(text="enum_case"),
+    return ir_data.Attribute(name=ir_data.Word(text="enum_case"), back_end=ir_data.Word(text="cpp"),
                              value=ir_data.AttributeValue(string_constant=ir_data.String(text=text, source_location=loc)))
 
 
